@@ -106,6 +106,16 @@ NsNameT == TLCEval([t \in AllCand |-> NsName(t)])
 PathFormT == TLCEval([t \in AllCand |-> PathForm(t)])
 PathSeqT == TLCEval([f \in Range(Tree) |-> TLCEval([g \in Range(Tree) |-> PathSeq(f, g)])])
 FileIdxT == TLCEval([f \in Range(Tree) |-> FileIdx(f)])
+RootedT == TLCEval([t \in AllCand |-> Rooted(t)])
+
+\* How the file being run is named does not matter: the project root is the directory that contains it, whatever
+\* the spelling.  $P stands for the project directory, $S for its parent (in which it is called "proj").
+Spellings == <<"bare", "dot", "from-parent", "dotdot", "absolute">>
+SpellingOf(sp) == CASE sp = "bare"        -> [cwd |-> "$P", arg |-> Main]                  \* cd proj && sylt main.sy
+                    [] sp = "dot"         -> [cwd |-> "$P", arg |-> "./" \o Main]
+                    [] sp = "from-parent" -> [cwd |-> "$S", arg |-> "proj/" \o Main]
+                    [] sp = "dotdot"      -> [cwd |-> "$P", arg |-> "../proj/" \o Main]
+                    [] sp = "absolute"    -> [cwd |-> "/",  arg |-> "$P/" \o Main]
 
 PathsOK ==
     /\ \A f \in Range(Tree), t \in AllCand : Len(PathToFile(f, t)) > 3                   \* total
@@ -498,6 +508,15 @@ Derive(p, m, v) ==
              SelectSeq(cands, LAMBDA t : ~PossiblyVisible(f, [stm EXCEPT ![f] = t.stmts], [ns |-> t.ns, name |-> t.name], gl))
       load == LoadW(<<Main>>, <<>>, imp)
       strict(f) == ReachSet(Range(imp[f]), imp)
+      \* one file named by a rooted path somewhere and by a relative path somewhere else; the main file imported back
+      allStmts == Flatten([q \in DOMAIN used |-> [r \in DOMAIN stm[used[q]] |-> [f |-> used[q], path |-> stm[used[q]][r].path]]], 1)
+      mixed == \E a \in DOMAIN allStmts, b \in DOMAIN allStmts :
+                  /\ FileOf(allStmts[a].f, allStmts[a].path) = FileOf(allStmts[b].f, allStmts[b].path)
+                  /\ RootedT[allStmts[a].path] /\ ~RootedT[allStmts[b].path]
+      mainback == \E a \in DOMAIN allStmts : FileOf(allStmts[a].f, allStmts[a].path) = Main
+      isDiamond == \E t \in Range(load), a \in Range(load), b \in Range(load), c \in Range(load) :
+                     /\ Cardinality({t, a, b, c}) = 4
+                     /\ a \in Range(imp[t]) /\ b \in Range(imp[t]) /\ c \in Range(imp[a]) /\ c \in Range(imp[b])
   IN [p |-> p, m |-> m, v |-> v, prog |-> ProgNames[p],
       place |-> pl, gl |-> gl, imp |-> imp, stm |-> stm,
       files |-> [q \in DOMAIN used |-> fileRec(used[q])],
@@ -513,9 +532,10 @@ Derive(p, m, v) ==
                         /\ Len(e.via) = 1
                         /\ e.g \in Range(imp[e.via[1]]) /\ e.via[1] \in Range(imp[e.g])
                         /\ e.g \in Range(imp[e.f]) /\ e.via[1] \in Range(imp[e.f]),
-      diamond |-> \E t \in Range(load), a \in Range(load), b \in Range(load), c \in Range(load) :
-                     /\ Cardinality({t, a, b, c}) = 4
-                     /\ a \in Range(imp[t]) /\ b \in Range(imp[t]) /\ c \in Range(imp[a]) /\ c \in Range(imp[b])]
+      diamond |-> isDiamond, mixed |-> mixed, mainback |-> mainback,
+      \* configurations also compiled from disk under every spelling of the main file: a mutable global or an initialiser
+      \* with an effect, and some file reachable under two spellings or along two ways
+      disk |-> ProgNames[p] \in {"cell", "init"} /\ (mixed \/ mainback \/ isDiamond)]
 
 \* which configurations a run explores: nv variants per placement (quick 1, thorough 16 or 32), evenly spread over
 \* 0..NVariants-1 and offset by placement number and seed
